@@ -2,7 +2,9 @@
    input : <impl> <cap0> <op>@<cap>;<op>@<cap>;...      (cap = Cap() of the implementation
            after the call: the capacity oracle; `-` when unknown -> 0)
            op = g:<i> | a:<x>,<y>,.. | i:<idx>:<x> | s:<idx>:<x> | d:<idx> | l | c | r:<stop> | v
+           an op prefixed with `~` is NOT followed by the observers Len / AsSlice / Cap
    output: <res>|<len>|<contents>|<model's cap, diagnostic only>;...   stops after the first panic
+           (unobserved op: <res>|~|~|~)
    `modelrun list`      runs the model of the four implementations
    `modelrun list-spec` runs the abstract sequence on the same history *)
 open Zutil
@@ -33,10 +35,12 @@ let op_of_string s =
   | _ -> failwith ("op " ^ s)
 
 let step_of_string s =
+  let observed = not (String.length s > 0 && s.[0] = '~') in
+  let s = if observed then s else String.sub s 1 (String.length s - 1) in
   match split_on '@' s with
-  | [o] -> (op_of_string o, z_of_int 0)
-  | [o; "-"] -> (op_of_string o, z_of_int 0)
-  | [o; c] -> (op_of_string o, z_of_string c)
+  | [o] -> ((op_of_string o, z_of_int 0), observed)
+  | [o; "-"] -> ((op_of_string o, z_of_int 0), observed)
+  | [o; c] -> ((op_of_string o, z_of_string c), observed)
   | _ -> failwith ("step " ^ s)
 
 (* long lists are printed as two polynomial hashes; the Go harness prints the same text *)
@@ -82,9 +86,11 @@ let show_cap = function
   | Common.Ok (OCap c) -> z_to_string c
   | _ -> "?"
 
-let show_entry (((r, rl), rs), rc) =
+let show_entry (r, obs) =
   if r = Common.Panic then "panic"
-  else show_res r ^ "|" ^ show_len rl ^ "|" ^ show_contents rs ^ "|" ^ show_cap rc
+  else match obs with
+    | Some ((rl, rs), rc) -> show_res r ^ "|" ^ show_len rl ^ "|" ^ show_contents rs ^ "|" ^ show_cap rc
+    | None -> show_res r ^ "|~|~|~"
 
 let run spec =
   iter_lines (fun line ->
